@@ -628,6 +628,10 @@ func (x *SExec) doWrite(i int, op SOp) *Fail {
 				if cnt > before[j] && e.Applied {
 					applied[j] = true
 				}
+				if cnt > before[j] && !e.Applied && e.Outcome == OK && e.Err != "" && !strings.Contains(e.Err, "Volume no longer exist") {
+					// no fault was injected: the replica itself failed I/O inside the volume's range
+					return sfail("replica|"+op.K+"|failed-without-fault", fmt.Sprintf("n%d (%s) failed %s off=%d len=%d by itself: %s", j, modeBefore[j], op.K, off, length, e.Err), "C01", "C16", "C07")
+				}
 			}
 		}
 	}
@@ -786,6 +790,9 @@ func (x *SExec) doRead(i int, op SOp) *Fail {
 				}
 				if x.Mode[j] != types.RW {
 					return sfail("read|sent-to-non-RW", fmt.Sprintf("a read reached n%d which is %q in the model (modes %v)", j, x.Mode[j], x.Mode), "C04", "C18")
+				}
+				if !e.Applied && e.Outcome == OK && e.Err != "" && !strings.Contains(e.Err, "Volume no longer exist") {
+					return sfail("replica|read|failed-without-fault", fmt.Sprintf("n%d (RW) failed read off=%d len=%d by itself: %s", j, off, length, e.Err), "C01", "C16", "C07")
 				}
 				if e.Applied {
 					served = j
